@@ -725,17 +725,25 @@ class Hugr(Mapping[Node, NodeData], Generic[OpVarCov]):
         not all of those are connected.
         """
         offset = self.num_ports(node, direction)
+        sig_offset = self._signature_order_offset(node, direction)
+        return offset if sig_offset is None else max(offset, sig_offset)
+
+    def _signature_order_offset(
+        self, node: Node, direction: Direction
+    ) -> PortOffset | None:
+        """Offset of the state order port according to the operation's
+        signature, or None if the operation has no state order port.
+        """
         op = self[node].op
+        if not isinstance(op, DataflowOp | Call):
+            return None
         if direction == Direction.OUTGOING:
-            if isinstance(op, DataflowOp | Call):
-                offset = max(offset, op.num_out)
-        elif isinstance(op, Call):
-            offset = max(offset, len(op.instantiation.input) + 1)
-        elif isinstance(op, LoadConst | LoadFunc):
-            offset = max(offset, 1)
-        elif isinstance(op, DataflowOp):
-            offset = max(offset, len(op.outer_signature().input))
-        return offset
+            return op.num_out
+        if isinstance(op, Call):
+            return len(op.instantiation.input) + 1
+        if isinstance(op, LoadConst | LoadFunc):
+            return 1
+        return len(op.outer_signature().input)
 
     def resolve_extensions(self, registry: ext.ExtensionRegistry) -> Hugr:
         """Resolve extension types and operations in the HUGR by matching them to
@@ -779,8 +787,16 @@ class Hugr(Mapping[Node, NodeData], Generic[OpVarCov]):
             assert n.idx == idx, "Nodes should be added contiguously"
 
         for (src_node, src_offset), (dst_node, dst_offset) in serial.edges:
+            # state order edges are written without an offset or at the first
+            # port after the value ports: restore them as order links
             if src_offset is None or dst_offset is None:
-                continue
+                src_offset = dst_offset = -1
+            elif src_offset == hugr._signature_order_offset(
+                Node(src_node), Direction.OUTGOING
+            ) and dst_offset == hugr._signature_order_offset(
+                Node(dst_node), Direction.INCOMING
+            ):
+                src_offset = dst_offset = -1
             hugr.add_link(
                 Node(src_node, _metadata=get_meta(src_node)).out(src_offset),
                 Node(dst_node, _metadata=get_meta(dst_node)).inp(dst_offset),
